@@ -1209,3 +1209,323 @@ Theorem at_most_once K ls id : K <= 7 -> NoDup (map fst (lsubmits ls)) ->
 Proof.
   intros HK Hnd. apply (proj1 (NoDup_count_occ N.eq_dec _)). apply deliveries_nodup; assumption.
 Qed.
+
+(* ================================================================================================ *)
+(* (6) cancelling callers changes nothing but who is told                                            *)
+(* ================================================================================================ *)
+(* [cancelled] is written by CancelCaller and read by done_out, nowhere else: the host with its
+   cancelled list emptied does the same thing, up to the completion events of cancelled callers *)
+Definition u (st : hstate) : hstate := set_cancelled st [].
+Definition sub_mem (C D : list N) : Prop := forall x, memN x C = true -> memN x D = true.
+
+Lemma strip_app D a b : strip D (a ++ b) = strip D a ++ strip D b.
+Proof. unfold strip. apply filter_app. Qed.
+
+Lemma u_done_out D st id o : sub_mem (cancelled st) D ->
+  strip D (done_out (u st) id o) = strip D (done_out st id o).
+Proof.
+  intro HD. unfold done_out. cbn [u set_cancelled cancelled memN].
+  destruct (memN id (cancelled st)) eqn:E; [|reflexivity].
+  cbn [strip filter]. rewrite (HD id E). reflexivity.
+Qed.
+
+Lemma u_start_next D : forall fuel st, sub_mem (cancelled st) D ->
+  fst (start_next fuel (u st)) = u (fst (start_next fuel st)) /\
+  cancelled (fst (start_next fuel st)) = cancelled st /\
+  strip D (snd (start_next fuel (u st))) = strip D (snd (start_next fuel st)).
+Proof.
+  induction fuel as [|fuel IH]; intros st HD.
+  - cbn [start_next fst snd]. repeat split.
+  - destruct st as [tx rx fl ta nw ws cu ca]. unfold u, set_cancelled in *.
+    cbn [tx_seq rx_seq failed t_ack now waiters cur cancelled start_next] in *.
+    destruct ws as [|[id p] ws]; [cbn [fst snd]; repeat split|].
+    destruct fl.
+    + specialize (IH {| tx_seq := tx; rx_seq := rx; failed := true; t_ack := ta; now := nw; waiters := ws;
+                        cur := None; cancelled := ca |} HD).
+      cbn [tx_seq rx_seq failed t_ack now waiters cur cancelled] in IH.
+      destruct IH as (I1 & I2 & I3).
+      destruct (start_next fuel {| tx_seq := tx; rx_seq := rx; failed := true; t_ack := ta; now := nw;
+                                   waiters := ws; cur := None; cancelled := [] |}) as [a1 b1].
+      destruct (start_next fuel {| tx_seq := tx; rx_seq := rx; failed := true; t_ack := ta; now := nw;
+                                   waiters := ws; cur := None; cancelled := ca |}) as [a2 b2].
+      cbn [fst snd] in *. split; [exact I1|]. split; [exact I2|].
+      rewrite !strip_app, I3. f_equal.
+      apply (u_done_out D {| tx_seq := tx; rx_seq := rx; failed := true; t_ack := ta; now := nw; waiters := ws;
+                             cur := None; cancelled := ca |}). exact HD.
+    + unfold transmit. cbn [fst snd tx_seq rx_seq failed t_ack now waiters cur cancelled]. repeat split.
+Qed.
+
+Lemma u_close D s pre1 pre : sub_mem (cancelled s) D -> strip D pre1 = strip D pre ->
+  fst (close (u s) pre1) = u (fst (close s pre)) /\
+  cancelled (fst (close s pre)) = cancelled s /\
+  strip D (snd (close (u s) pre1)) = strip D (snd (close s pre)).
+Proof.
+  intros HD Hpre. unfold close, sn. cbn [fst snd].
+  destruct (u_start_next D (S (length (waiters (with_cur s None)))) (with_cur s None) HD) as (H1 & H2 & H3).
+  split; [exact H1|]. split; [exact H2|]. rewrite !strip_app, Hpre. f_equal. exact H3.
+Qed.
+
+Lemma u_retry D st c o : sub_mem (cancelled st) D ->
+  fst (retry_or_fail (u st) c o) = u (fst (retry_or_fail st c o)) /\
+  cancelled (fst (retry_or_fail st c o)) = cancelled st /\
+  strip D (snd (retry_or_fail (u st) c o)) = strip D (snd (retry_or_fail st c o)).
+Proof.
+  intro HD. rewrite !retry_or_fail_eq. destruct (ACK_TIMEOUTS - 1 <=? cattempt c)%N.
+  - apply (u_close D (set_failed st true)); [exact HD|].
+    change (HReset ERROR_EXCEEDED_MAXIMUM_ACK_TIMEOUT_COUNT :: ?l)
+      with ([HReset ERROR_EXCEEDED_MAXIMUM_ACK_TIMEOUT_COUNT] ++ l).
+    rewrite !strip_app. f_equal. apply u_done_out. exact HD.
+  - change (failed (u st)) with (failed st). destruct (failed st).
+    + apply (u_close D st); [exact HD|]. apply u_done_out. exact HD.
+    + unfold transmit. cbn [fst snd cancelled]. repeat split.
+Qed.
+
+Lemma u_settle D st : sub_mem (cancelled st) D ->
+  fst (settle (u st)) = u (fst (settle st)) /\
+  cancelled (fst (settle st)) = cancelled st /\
+  strip D (snd (settle (u st))) = strip D (snd (settle st)).
+Proof.
+  intro HD. rewrite !settle_eq. change (cur (u st)) with (cur st).
+  destruct (cur st) as [c|]; [|repeat split].
+  destruct (cfut c) as [| | |code]; [repeat split| | |].
+  - apply (u_close D (set_t st _)); [exact HD|]. apply u_done_out. exact HD.
+  - apply (u_retry D (set_t st _)). exact HD.
+  - apply (u_close D st); [exact HD|]. apply u_done_out. exact HD.
+Qed.
+
+Lemma u_resolve st y : resolve (u st) y = u (resolve st y).
+Proof.
+  unfold resolve. change (cur (u st)) with (cur st).
+  destruct (cur st) as [c|]; [|reflexivity]. destruct (cfut c); reflexivity.
+Qed.
+
+Lemma u_handle_ack st a : handle_ack (u st) a = u (handle_ack st a).
+Proof.
+  unfold handle_ack. change (cur (u st)) with (cur st).
+  destruct (cur st) as [c|]; [|reflexivity]. destruct ((a + 7) mod 8 =? cfrm c)%N; [apply u_resolve|reflexivity].
+Qed.
+
+Lemma u_apply_frame st f :
+  apply_frame (u st) f = (u (fst (apply_frame st f)), snd (apply_frame st f)).
+Proof.
+  rewrite !apply_frame_eq. cbn [fst snd]. change (rx_seq (u st)) with (rx_seq st). f_equal.
+  destruct f as [frm re a p|res nr a|res nr a| |v code|v code]; cbn [core].
+  - rewrite u_handle_ack. reflexivity.
+  - rewrite u_handle_ack. reflexivity.
+  - rewrite u_handle_ack, u_resolve. reflexivity.
+  - reflexivity.
+  - reflexivity.
+  - change (set_failed (u st) true) with (u (set_failed st true)). rewrite u_resolve. reflexivity.
+Qed.
+
+Lemma u_apply_frames fs : forall st,
+  apply_frames (u st) fs = (u (fst (apply_frames st fs)), snd (apply_frames st fs)).
+Proof.
+  induction fs as [|f fs IH]; intro st; [reflexivity|].
+  rewrite !apply_frames_cons, u_apply_frame. cbn [fst snd]. rewrite IH. reflexivity.
+Qed.
+
+Definition not_cancel (e : hevent) : Prop := match e with CancelCaller _ => False | _ => True end.
+
+Lemma u_host_step D st e : not_cancel e -> sub_mem (cancelled st) D ->
+  fst (host_step (u st) e) = u (fst (host_step st e)) /\
+  cancelled (fst (host_step st e)) = cancelled st /\
+  strip D (snd (host_step (u st) e)) = strip D (snd (host_step st e)).
+Proof.
+  intros Hn HD. destruct e as [id p|fs| |t|id]; [| | | |destruct Hn].
+  - rewrite !step_submit_eq. change (cur (u st)) with (cur st). destruct (cur st) as [c|].
+    + cbn [fst snd]. repeat split.
+    + apply (u_start_next D _ (submitted st id p)). exact HD.
+  - rewrite !step_frames_eq, u_apply_frames. cbn [fst snd].
+    destruct (afs_misc fs st) as (_ & _ & Kc & _).
+    destruct (u_settle D (fst (apply_frames st fs))) as (H1 & H2 & H3); [rewrite Kc; exact HD|].
+    split; [exact H1|]. split; [rewrite H2; exact Kc|]. rewrite !strip_app, H3. reflexivity.
+  - cbn [host_step]. change (cur (u st)) with (cur st). destruct (cur st) as [c|]; [|repeat split].
+    destruct (cfut c); try (repeat split; fail).
+    apply (u_retry D (set_t (set_now st (cdeadline c)) (on_timeout (t_ack st)))). exact HD.
+  - cbn [host_step]. change (cur (u st)) with (cur st). change (now (u st)) with (now st).
+    destruct (cur st) as [c|].
+    + destruct (PrimFloat.ltb t (cdeadline c) && PrimFloat.leb (now st) t); repeat split.
+    + destruct (PrimFloat.leb (now st) t); repeat split.
+Qed.
+
+Lemma sub_mem_refl C : sub_mem C C.
+Proof. intros x H; exact H. Qed.
+
+Lemma wire_strip D l : wire (strip D l) = wire l.
+Proof.
+  induction l as [|o l IH]; [reflexivity|]. cbn [strip filter].
+  destruct o as [| | | | | |i oc]; cbn [wire flat_map wire_of app]; fold (strip D l); fold (wire (strip D l));
+    fold (wire l); rewrite ?IH; try reflexivity.
+  destruct (negb (memN i D)); cbn [wire flat_map wire_of app]; fold (wire (strip D l)); rewrite ?IH; reflexivity.
+Qed.
+Lemma ups_of_strip D l : ups_of (strip D l) = ups_of l.
+Proof.
+  induction l as [|o l IH]; [reflexivity|]. cbn [strip filter].
+  destruct o as [| | | | | |i oc]; cbn [ups_of flat_map app]; fold (strip D l); fold (ups_of (strip D l));
+    fold (ups_of l); rewrite ?IH; try reflexivity.
+  destruct (negb (memN i D)); cbn [ups_of flat_map app]; fold (ups_of (strip D l)); rewrite ?IH; reflexivity.
+Qed.
+Lemma first_tx_strip D l : first_tx (strip D l) = first_tx l.
+Proof.
+  induction l as [|o l IH]; [reflexivity|]. cbn [strip filter].
+  destruct o as [| | | | | |i oc]; cbn [first_tx flat_map app]; fold (strip D l); fold (first_tx (strip D l));
+    fold (first_tx l); rewrite ?IH; try reflexivity.
+  destruct (negb (memN i D)); cbn [first_tx flat_map app]; fold (first_tx (strip D l)); rewrite ?IH; reflexivity.
+Qed.
+Lemma strip_In D l id o : memN id D = false -> (In (HDone id o) (strip D l) <-> In (HDone id o) l).
+Proof.
+  intro Hm. unfold strip. rewrite filter_In. split; [intros [H _]; exact H|].
+  intro H. split; [exact H|]. rewrite Hm. reflexivity.
+Qed.
+
+(* the run with the cancellations (s1) against the run without (s2) *)
+Record Rc (s1 s2 : lstate) : Prop := {
+  rc_hs : hs s2 = u (hs s1);
+  rc_ns : ns s2 = ns s1;
+  rc_h2n : h2n s2 = h2n s1;
+  rc_n2h : n2h s2 = n2h s1;
+  rc_nups : nups s2 = nups s1;
+  rc_tr : forall D, sub_mem (cancelled (hs s1)) D -> strip D (htrace s2) = strip D (htrace s1)
+}.
+
+Lemma rc_host_do s1 s2 e : Rc s1 s2 -> not_cancel e -> Rc (host_do s1 e) (host_do s2 e).
+Proof.
+  intros [H1 H2 H3 H4 H5 H6] Hn. unfold host_do. rewrite H1.
+  destruct (u_host_step (cancelled (hs s1)) (hs s1) e Hn (sub_mem_refl _)) as (E1 & E2 & E3).
+  constructor; cbn [hs ns h2n n2h htrace nups]; try assumption.
+  - rewrite H3. f_equal. rewrite <- (wire_strip (cancelled (hs s1))), E3. apply wire_strip.
+  - intros D HD. rewrite E2 in HD.
+    destruct (u_host_step D (hs s1) e Hn HD) as (_ & _ & E3').
+    rewrite !strip_app, E3', (H6 D HD). reflexivity.
+Qed.
+
+Lemma rc_step K s1 s2 l : Rc s1 s2 -> is_cancel l = false -> Rc (link_step K s1 l) (link_step K s2 l).
+Proof.
+  intros HR Hl.
+  destruct l as [id p|id| |t|p|i re| | | | | | | | | | ]; cbn [is_cancel] in Hl; try discriminate;
+    cbn [link_step]; try (apply rc_host_do; [exact HR|exact I]);
+    pose proof HR as [H1 H2 H3 H4 H5 H6]; rewrite ?H2, ?H3, ?H4.
+  - constructor; cbn [ncp_sends hs ns h2n n2h htrace nups]; rewrite ?H4, ?H5; try assumption; reflexivity.
+  - destruct ((n_base (ns s1) <=? i) && (i <=? n_next (ns s1)) && (i <? n_base (ns s1) + K)
+              && (i <? length (n_sub (ns s1)))); [|exact HR].
+    constructor; cbn [ncp_sends hs ns h2n n2h htrace nups]; rewrite ?H4, ?H5; try assumption; reflexivity.
+  - constructor; cbn [ncp_sends hs ns h2n n2h htrace nups]; rewrite ?H4, ?H5; try assumption; reflexivity.
+  - constructor; cbn [ncp_sends hs ns h2n n2h htrace nups]; rewrite ?H4, ?H5; try assumption; reflexivity.
+  - destruct (n2h s1) as [|f q]; [exact HR|]. apply rc_host_do; [|exact I].
+    constructor; cbn [set_n2h hs ns h2n n2h htrace nups]; try assumption; reflexivity.
+  - constructor; cbn [set_n2h hs ns h2n n2h htrace nups]; try assumption; reflexivity.
+  - constructor; cbn [set_n2h hs ns h2n n2h htrace nups]; try assumption; reflexivity.
+  - destruct (n2h s1) as [|f q]; [exact HR|]. rewrite H1. change (rx_seq (u (hs s1))) with (rx_seq (hs s1)).
+    constructor; cbn [hs ns h2n n2h htrace nups]; rewrite ?H3; try assumption; try reflexivity.
+    intros D HD. rewrite !strip_app, (H6 D HD). reflexivity.
+  - destruct (h2n s1) as [|f q]; [exact HR|]. cbv zeta.
+    constructor; cbn [hs ns h2n n2h htrace nups]; rewrite ?H5; try assumption; reflexivity.
+  - constructor; cbn [set_h2n hs ns h2n n2h htrace nups]; try assumption; reflexivity.
+  - constructor; cbn [set_h2n hs ns h2n n2h htrace nups]; try assumption; reflexivity.
+  - destruct (h2n s1) as [|f q]; [exact HR|].
+    constructor; cbn [ncp_sends set_h2n hs ns h2n n2h htrace nups]; rewrite ?H4; try assumption; reflexivity.
+Qed.
+
+Lemma rc_cancel s1 s2 id : Rc s1 s2 -> Rc (host_do s1 (CancelCaller id)) s2.
+Proof.
+  intros [H1 H2 H3 H4 H5 H6]. unfold host_do.
+  destruct (step_cancel_cases (hs s1) id) as [E|E]; rewrite E; cbn [fst snd];
+    constructor; cbn [hs ns h2n n2h htrace nups wire flat_map]; rewrite ?app_nil_r; try assumption.
+  - intros D HD. rewrite strip_app. cbn [strip filter]. cbn [cancelled_by cancelled] in HD.
+    assert (Hid : memN id D = true) by (apply HD; cbn [memN]; rewrite N.eqb_refl; reflexivity).
+    rewrite Hid. cbn [negb]. rewrite app_nil_r. apply H6.
+    intros x Hx. apply HD. cbn [memN]. rewrite Hx. apply orb_true_r.
+Qed.
+
+Lemma drop_cancels_app a b : drop_cancels (a ++ b) = drop_cancels a ++ drop_cancels b.
+Proof. unfold drop_cancels. apply filter_app. Qed.
+
+Theorem cancel_rc K ls : Rc (link_run K ls) (link_run K (drop_cancels ls)).
+Proof.
+  induction ls as [|l ls IH] using rev_ind.
+  - constructor; try reflexivity.
+  - rewrite drop_cancels_app, link_run_snoc. destruct (is_cancel l) eqn:E.
+    + destruct l; try discriminate. cbn [drop_cancels filter is_cancel negb]. rewrite app_nil_r.
+      cbn [link_step]. apply rc_cancel. exact IH.
+    + unfold drop_cancels at 2. cbn [filter]. rewrite E. cbn [negb]. rewrite link_run_snoc.
+      apply rc_step; assumption.
+Qed.
+
+Lemma memN_In x l : memN x l = true <-> In x l.
+Proof.
+  induction l as [|y l IH]; cbn [memN In]; [split; [discriminate|intros []]|].
+  rewrite orb_true_iff, IH, N.eqb_eq. split; intros [H|H]; auto.
+Qed.
+
+(* exactly the callers named by LCancel labels are in [cancelled] *)
+Lemma cancelled_labels K ls id :
+  In id (cancelled (hs (link_run K ls))) <-> In (LCancel id) ls.
+Proof.
+  induction ls as [|l ls IH] using rev_ind; [cbn; tauto|].
+  rewrite link_run_snoc, in_app_iff, <- IH. set (s := link_run K ls). clearbody s. clear IH.
+  assert (Hh : forall s' e, not_cancel e -> cancelled (hs (host_do s' e)) = cancelled (hs s')).
+  { intros s' e He. unfold host_do. cbn [hs].
+    destruct (u_host_step (cancelled (hs s')) (hs s') e He (sub_mem_refl _)) as (_ & E & _). exact E. }
+  assert (Hno : forall (l' : label) (X : Prop), l' <> LCancel id -> (X <-> X \/ In (LCancel id) [l'])).
+  { intros l' X Hne. cbn [In]. split; [intro H; left; exact H|intros [H|[H|[]]]; [exact H|congruence]]. }
+  destruct l as [i p|i| |t|p|i re| | | | | | | | | | ]; cbn [link_step].
+  - rewrite (Hh s (Submit i p) I). apply Hno. discriminate.
+  - unfold host_do. cbn [hs].
+    destruct (step_cancel_cases (hs s) i) as [E|E]; rewrite E; cbn [fst cancelled_by cancelled In].
+    + split; [intro H; left; exact H|]. intros [H|[H|[]]]; [exact H|]. injection H as H. subst i.
+      cbn [host_step] in E. destruct (memN id (cancelled (hs s))) eqn:Em; [apply memN_In; exact Em|].
+      injection E as E. exfalso. clear -E. destruct (hs s) as [tx rx fl ta nw ws cu ca]. cbn in E.
+      injection E as E. apply (f_equal (@length N)) in E. cbn [length] in E. lia.
+    + split; [intros [H|H]; [right; left; subst; reflexivity|left; exact H]|].
+      intros [H|[H|[]]]; [right; exact H|left]. injection H as H. exact H.
+  - rewrite (Hh s Tick I). apply Hno. discriminate.
+  - rewrite (Hh s (WaitTo t) I). apply Hno. discriminate.
+  - cbn [ncp_sends hs]. apply Hno. discriminate.
+  - destruct ((n_base (ns s) <=? i) && (i <=? n_next (ns s)) && (i <? n_base (ns s) + K)
+              && (i <? length (n_sub (ns s)))); cbn [ncp_sends hs]; apply Hno; discriminate.
+  - cbn [ncp_sends hs]. apply Hno. discriminate.
+  - cbn [ncp_sends hs]. apply Hno. discriminate.
+  - destruct (n2h s) as [|f q]; [apply Hno; discriminate|].
+    rewrite (Hh (set_n2h s q) (Frames [f]) I). cbn [set_n2h hs]. apply Hno. discriminate.
+  - cbn [set_n2h hs]. apply Hno. discriminate.
+  - cbn [set_n2h hs]. apply Hno. discriminate.
+  - destruct (n2h s) as [|f q]; cbn [hs]; apply Hno; discriminate.
+  - destruct (h2n s) as [|f q]; cbn [hs]; apply Hno; discriminate.
+  - cbn [set_h2n hs]. apply Hno. discriminate.
+  - cbn [set_h2n hs]. apply Hno. discriminate.
+  - destruct (h2n s) as [|f q]; cbn [ncp_sends set_h2n hs]; apply Hno; discriminate.
+Qed.
+
+(* removing every cancellation from a run changes neither the states of the two endpoints (but for
+   the host's list of cancelled callers), nor what is on the wire, nor what either side hands up,
+   nor any output of the host other than the completion events of the cancelled callers *)
+Theorem cancel_noop K ls :
+  let s1 := link_run K ls in
+  let s2 := link_run K (drop_cancels ls) in
+  hs s2 = set_cancelled (hs s1) [] /\ ns s2 = ns s1 /\ h2n s2 = h2n s1 /\ n2h s2 = n2h s1
+  /\ nups s2 = nups s1 /\ hups s2 = hups s1 /\ first_tx (htrace s2) = first_tx (htrace s1)
+  /\ strip (cancelled (hs s1)) (htrace s2) = strip (cancelled (hs s1)) (htrace s1)
+  /\ (forall id o, ~ In (LCancel id) ls ->
+        (In (HDone id o) (htrace s2) <-> In (HDone id o) (htrace s1))).
+Proof.
+  intros s1 s2. subst s1 s2. destruct (cancel_rc K ls) as [H1 H2 H3 H4 H5 H6].
+  pose proof (H6 _ (sub_mem_refl _)) as H7.
+  split; [exact H1|]. split; [exact H2|]. split; [exact H3|]. split; [exact H4|]. split; [exact H5|].
+  split; [|split; [|split; [exact H7|]]].
+  - unfold hups. rewrite <- (ups_of_strip (cancelled (hs (link_run K ls)))), H7. apply ups_of_strip.
+  - rewrite <- (first_tx_strip (cancelled (hs (link_run K ls)))), H7. apply first_tx_strip.
+  - intros id o Hn.
+    assert (Hm : memN id (cancelled (hs (link_run K ls))) = false).
+    { destruct (memN id (cancelled (hs (link_run K ls)))) eqn:Em; [|reflexivity].
+      exfalso. apply Hn. apply cancelled_labels with (K := K). apply memN_In. exact Em. }
+    rewrite <- (strip_In _ _ _ o Hm), H7. apply strip_In. exact Hm.
+Qed.
+
+(* what the NCP has seen acknowledged, the host has handed up *)
+Theorem ncp_acked_delivered K ls : K <= 7 ->
+  n_base (ns (link_run K ls)) <= length (hups (link_run K ls)).
+Proof.
+  intro HK. destruct (run_inv K ls HK) as (g1 & g2 & hb & HI).
+  pose proof (i_d1 _ _ _ _ _ _ HI) as D1. destruct D1 as [Hbr _ _ _ _ _ _ _ _]. exact Hbr.
+Qed.
